@@ -5,9 +5,11 @@ import (
 	"fmt"
 	"math/big"
 	"os"
+	"runtime"
 	"sort"
 	"strings"
 	"testing"
+	"time"
 
 	"pgregory.net/rapid"
 
@@ -34,11 +36,16 @@ type scenario struct {
 	Cache    string // "archive" (flush every block) or "dirty" (keep recent state in memory)
 	Heights  uint64 // base run length
 	NilRound bool   // the proposal of height 2 round 1 is withheld, so that height needs two rounds
+	MoreNil  int    // with NilRound: that many further rounds of height 2 fail the same way
 	WithTxs  bool   // two signed transfers sit in every node's pool from the start, so the first blocks carry transactions
 }
 
 func (sc scenario) String() string {
-	return fmt.Sprintf("powers=%v subject=%d cache=%s heights=%d nilround=%v txs=%v", sc.Powers, sc.Subject, sc.Cache, sc.Heights, sc.NilRound, sc.WithTxs)
+	nr := fmt.Sprint(sc.NilRound)
+	if sc.NilRound && sc.MoreNil > 0 {
+		nr = fmt.Sprintf("true+%d", sc.MoreNil)
+	}
+	return fmt.Sprintf("powers=%v subject=%d cache=%s heights=%d nilround=%s txs=%v", sc.Powers, sc.Subject, sc.Cache, sc.Heights, nr, sc.WithTxs)
 }
 
 func cacheOf(mode string) *blockchain.CacheConfig {
@@ -49,6 +56,9 @@ func cacheOf(mode string) *blockchain.CacheConfig {
 }
 
 type finding struct{ key, msg string }
+
+// imageHook, if set, sees the surviving images of the first crash (copies) before the restart.
+var imageHook func(s *netsim.Sim, sc scenario, db *memorydb.Database, wal []byte)
 
 type outcome struct {
 	ops      int // durable operations of the subject in the base run (after construction)
@@ -131,7 +141,7 @@ func runCrash2(sc scenario, cut int, tail string, cut2 int, inherited map[string
 	if sc.NilRound {
 		s.Filter = func(to, from int, m consensus.Message) bool {
 			p, ok := m.(*consensus.ProposalMessage)
-			return ok && p.Proposal.Height == 2 && p.Proposal.Round == 1
+			return ok && p.Proposal.Height == 2 && p.Proposal.Round >= 1 && p.Proposal.Round <= uint32(1+sc.MoreNil)
 		}
 	}
 	// signatures: every request of a live process, and which of them became published (own message processed in a
@@ -232,13 +242,16 @@ func runCrash2(sc scenario, cut int, tail string, cut2 int, inherited map[string
 		if e > 1 {
 			phase = out.phase2 // how far the commit had got at the crash that preceded the process being judged
 		}
-		if (sc.Cache == "dirty" && strings.HasPrefix(clause, "R3")) || strings.HasPrefix(clause, "R3:other-proposal") || strings.HasPrefix(clause, "R4:stuck-after-own") {
+		if (sc.Cache == "dirty" && strings.HasPrefix(clause, "R3")) || strings.HasPrefix(clause, "R3:other-proposal") || strings.HasPrefix(clause, "R4:stuck-after-own") || strings.HasPrefix(clause, "R1:start-blocks") {
 			phase = "any" // causes that do not depend on how far the commit had got
 		}
 		if e > 1 {
 			format = "[after the SECOND crash, window " + out.window2 + "] " + format
 		}
 		out.findings = append(out.findings, finding{fmt.Sprintf("clause=%s,cache=%s,phase=%s", clause, sc.Cache, phase), fmt.Sprintf(format, a...)})
+	}
+	if imageHook != nil {
+		imageHook(s, sc, netsim.CopyMem(imgDB), append([]byte{}, imgWAL...))
 	}
 	preHeight := subj.CS.Height
 	appliedAt := []uint64{0, lastApplied} // appliedAt[e] = what the subject had applied completely when process e-1 died
@@ -390,6 +403,11 @@ func runCrash2(sc scenario, cut int, tail string, cut2 int, inherited map[string
 		if msg != "" {
 			add("R1", "ConsensusState.Start panicked on the surviving files: %s (in %s)", msg, frame)
 			return
+		}
+		if nn.Tick.BeforeStart > consensus.VerifTickBuffer() {
+			// the real ticker's ScheduleTimeout is a send on a channel with that buffer, and nobody receives from it before
+			// Start() has launched the timeout routine: the send that exceeds the buffer blocks OnStart forever
+			add("R1:start-blocks-on-ticker", "ConsensusState.Start scheduled %d timeouts during the WAL catch-up, before it started the timeout ticker; the ticker's channel buffers %d, so with the product's ticker OnStart blocks forever and the node never comes up", nn.Tick.BeforeStart, consensus.VerifTickBuffer())
 		}
 		if startErr != nil {
 			add("R1", "ConsensusState.Start failed on the surviving files: %v", startErr)
@@ -588,7 +606,7 @@ func drawScenario(t *rapid.T) scenario {
 		powers[i] = int64(rapid.SampledFrom([]int{15, 15, 30}).Draw(t, "p"))
 	}
 	return scenario{Powers: powers, Subject: rapid.IntRange(0, n-1).Draw(t, "subject"), Cache: rapid.SampledFrom([]string{"archive", "dirty"}).Draw(t, "cache"),
-		Heights: uint64(rapid.IntRange(2, 3).Draw(t, "heights")), NilRound: rapid.Bool().Draw(t, "nilround"), WithTxs: rapid.Bool().Draw(t, "txs")}
+		Heights: uint64(rapid.IntRange(2, 3).Draw(t, "heights")), NilRound: rapid.Bool().Draw(t, "nilround"), MoreNil: rapid.SampledFrom([]int{0, 0, 1, 3}).Draw(t, "morenil"), WithTxs: rapid.Bool().Draw(t, "txs")}
 }
 
 // TestCrashDrawn: crash points drawn by rapid over drawn scenarios (quick tier).
@@ -714,4 +732,63 @@ func TestSecondCrashEnum(t *testing.T) {
 		}
 	}
 	ev.Note("second-crash enumeration", fmt.Sprintf("every first crash point (stride %d) of two base runs x wal tails {none, all} x the first %d durable operations of the restarted process", stride, depth))
+}
+
+// TestRestartRealTicker: the same restart with the PRODUCT's timeout ticker (real timers) instead of the harness-owned
+// one, on the images of a height that has already needed several rounds. The WAL catch-up schedules a timeout at every
+// replayed step change; ConsensusState.Start must come back. (Regression test of a repaired defect: the ticker was
+// started after the catch-up and its channel buffers ten requests.)
+func TestRestartRealTicker(t *testing.T) {
+	const key = "clause=R1:start-blocks-on-ticker,cache=archive,phase=any"
+	reproduced := false
+	for _, more := range []int{0, 2, 4} {
+		sc := scenario{Powers: []int64{15, 15, 15, 15}, Subject: 0, Cache: "archive", Heights: 2, NilRound: true, MoreNil: more}
+		n := runCrash(sc, -1, "none").ops
+		for _, back := range []int{8, 20} {
+			cut := n - back
+			text := fmt.Sprintf("%s cut=%d tail=all, restart with the product's ticker", sc, cut)
+			hung, inconclusive := "", false
+			imageHook = func(s *netsim.Sim, sc scenario, db *memorydb.Database, wal []byte) {
+				dir, err := os.MkdirTemp("", "c05-rt-")
+				if err != nil {
+					t.Fatalf("harness: %v", err)
+				}
+				defer os.RemoveAll(dir)
+				netsim.MaterialiseWAL(dir, wal)
+				nn, err := netsim.NewNode(sc.Subject, s.G, s.Keys[sc.Subject], netsim.NodeOpts{DB: db, Cache: cacheOf(sc.Cache), RootDir: dir, RealTicker: true})
+				if err != nil {
+					return // judged by the main restart path (R1)
+				}
+				defer nn.Close()
+				done := make(chan error, 1)
+				go func() { done <- nn.CS.Start() }()
+				select {
+				case <-done:
+					nn.CS.Stop()
+				case <-time.After(time.Duration(ev.Scale("START_WAIT_S", 60)) * time.Second):
+					// only a goroutine parked in the ticker's channel send is a hang; anything else is a slow machine
+					buf := make([]byte, 4<<20)
+					inconclusive = true
+					for _, g := range strings.Split(string(buf[:runtime.Stack(buf, true)]), "\n\n") {
+						if strings.Contains(g, "[chan send") && strings.Contains(g, "timeoutTicker).ScheduleTimeout") && strings.Contains(g, "ConsensusState).OnStart") {
+							hung, inconclusive = first(g, 1200), false
+						}
+					}
+				}
+			}
+			runCrash(sc, cut, "all")
+			imageHook = nil
+			if inconclusive {
+				t.Fatalf("harness: ConsensusState.Start did not return in time and is not parked in the ticker (inconclusive): %s", text)
+			}
+			if hung != "" {
+				reproduced = true
+				ev.Violation(t, key, text, "ConsensusState.Start never returns: OnStart is parked in the ticker's channel send during the WAL catch-up\n%s", hung)
+			}
+			ev.Case(more > 0, text, "restart-with-product-ticker")
+		}
+	}
+	if ev.Known(key) {
+		ev.KnownReproduced(key, reproduced)
+	}
 }
